@@ -367,7 +367,7 @@ theorem searchFirst_other (fuel : Nat) (x0 n0 : UInt8) (hx0 : tokTy x0 = .char) 
     (h99 : n0 ≠ 99) (w : Bytes) (cx : Ctx) :
     searchFirst fuel (load cx (x0 :: w)) =
       (collectWhile (· == .char) fuel >>= fun r =>
-        handleSearchKey (parseSearchKey fuel fuel) (lowerBytes (x0 :: r)) fuel >>= fun k =>
+        handleSearchKey (parseSearchKey (searchBudget - 1) fuel) (lowerBytes (x0 :: r)) fuel >>= fun k =>
         pure (([] : BStr), [k])) (load ⟨Tok.ofByte x0, x0, cx.n⟩ w) := by
   unfold searchFirst
   simp only [matchesTy]
@@ -379,7 +379,7 @@ theorem searchFirst_other (fuel : Nat) (x0 n0 : UInt8) (hx0 : tokTy x0 = .char) 
 theorem searchFirst_cc (fuel : Nat) (x0 x1 : UInt8) (hx0 : tokTy x0 = .char) (hl0 : byteToLower x0 = 99)
     (hx1 : tokTy x1 = .char) (hl1 : byteToLower x1 = 99) (w : Bytes) (cx : Ctx) :
     searchFirst fuel (load cx (x0 :: x1 :: w)) =
-      (handleSearchKey (parseSearchKey fuel fuel) (kw "cc") fuel >>= fun k =>
+      (handleSearchKey (parseSearchKey (searchBudget - 1) fuel) (kw "cc") fuel >>= fun k =>
         pure (([] : BStr), [k])) (load ⟨Tok.ofByte x1, x1, cx.n⟩ w) := by
   unfold searchFirst
   simp only [matchesTy]
@@ -391,7 +391,7 @@ theorem searchFirst_cc (fuel : Nat) (x0 x1 : UInt8) (hx0 : tokTy x0 = .char) (hl
 
 /-- first key, keyword-led -/
 theorem searchFirst_kw (fuel : Nat) (hf : 12 < fuel) (c : Choices) (k : SearchKey)
-    (hled : KwLed (parseSearchKey fuel fuel) fuel c k) :
+    (hled : KwLed (parseSearchKey (searchBudget - 1) fuel) fuel c k) :
     RT (searchFirst fuel) (printKey c k) (([] : BStr), [k]) keyFollow := by
   obtain ⟨c', name, args, hp, hl, hlen, hne, hcc, hfol, hrt⟩ := hled
   have hlow := allLower_spec hl
@@ -446,8 +446,9 @@ theorem searchFirst_kw (fuel : Nat) (hf : 12 < fuel) (c : Choices) (k : SearchKe
       exact ⟨c2, rfl⟩
 
 
-/-- a search key with its budget: loop fuel and recursion depth -/
-def KeyFit (fuel : Nat) (k : SearchKey) : Prop := KeyOK fuel k ∧ keyDepth k < fuel
+/-- a search key with its budget: loop fuel, and nesting within the cap of `parseSearchKey`
+(`keyDepth k ≤ maxSearchKeyDepth`, /repo c30e930: deeper keys are refused) -/
+def KeyFit (fuel : Nat) (k : SearchKey) : Prop := KeyOK fuel k ∧ keyDepth k < searchBudget
 
 theorem headTy_printKey_list (c : Choices) (ks : SearchKeys) (rest : Bytes) :
     headTy (printKey c (.list ks) ++ rest) = .lparen := by
@@ -456,25 +457,25 @@ theorem headTy_printKey_list (c : Choices) (ks : SearchKeys) (rest : Bytes) :
 /-- the first key of SEARCH (no CHARSET) -/
 theorem rt_searchFirst_key (fuel : Nat) (hf : 12 < fuel) (c : Choices) (k : SearchKey) (hk : KeyFit fuel k) :
     RT (searchFirst fuel) (printKey c k) (([] : BStr), [k]) keyFollow := by
-  have hsub : ∀ sub, IsSubKey sub k → ∀ c', RT (parseSearchKey fuel fuel) (printKey c' sub) sub keyFollow := by
+  have hsub : ∀ sub, IsSubKey sub k → ∀ c', RT (parseSearchKey (searchBudget - 1) fuel) (printKey c' sub) sub keyFollow := by
     intro sub hs c'
     cases k with
     | not x =>
       have e : sub = x := hs
       rw [e]
-      exact keyRT x c' fuel fuel hf hk.1 (by have := hk.2; simp [keyDepth] at this; omega)
+      exact keyRT x c' (searchBudget - 1) fuel hf hk.1 (by have := hk.2; simp [keyDepth] at this; omega)
     | or a b =>
       have hs' : sub = a ∨ sub = b := hs
       have := hk.2
       simp only [keyDepth] at this
       rcases hs' with e | e
-      · rw [e]; exact keyRT a c' fuel fuel hf hk.1.1 (by omega)
-      · rw [e]; exact keyRT b c' fuel fuel hf hk.1.2 (by omega)
+      · rw [e]; exact keyRT a c' (searchBudget - 1) fuel hf hk.1.1 (by omega)
+      · rw [e]; exact keyRT b c' (searchBudget - 1) fuel hf hk.1.2 (by omega)
     | _ => exact hs.elim
   by_cases hkw : IsKwKey k
   · exact searchFirst_kw fuel hf c k (key_kwLed _ fuel hf c k hk.1 hkw hsub)
   · -- a list or a sequence set: the generic path
-    have hgen := keyRT k c fuel fuel hf hk.1 hk.2
+    have hgen := keyRT k c searchBudget fuel hf hk.1 hk.2
     have hhead : ∀ r, headTy (printKey c k ++ r) ≠ .char := by
       intro r
       cases k with
@@ -487,13 +488,13 @@ theorem rt_searchFirst_key (fuel : Nat) (hf : 12 < fuel) (c : Choices) (k : Sear
     have := RT.bind (k := fun b => if b = true then
         prevVal >>= fun c => if (byteToLower c == 99) = true then
           curVal >>= fun c2 => if (byteToLower c2 == 99) = true then
-            consume .char >>= fun _ => handleSearchKey (parseSearchKey fuel fuel) (kw "cc") fuel >>= fun k =>
+            consume .char >>= fun _ => handleSearchKey (parseSearchKey (searchBudget - 1) fuel) (kw "cc") fuel >>= fun k =>
               pure (([] : BStr), [k])
           else consumeBytesFold (kw "HARSET") >>= fun _ => consume .sp >>= fun _ => parseAString fuel >>= fun e =>
             pure (e, [])
         else collectWhile (· == .char) fuel >>= fun r =>
-          handleSearchKey (parseSearchKey fuel fuel) (lowerBytes (c :: r)) fuel >>= fun k => pure (([] : BStr), [k])
-      else parseSearchKey fuel fuel >>= fun k => pure (([] : BStr), [k]))
+          handleSearchKey (parseSearchKey (searchBudget - 1) fuel) (lowerBytes (c :: r)) fuel >>= fun k => pure (([] : BStr), [k])
+      else parseSearchKey searchBudget fuel >>= fun k => pure (([] : BStr), [k]))
       (rt_matchesTy_no .char) (by simpa using RT.map (fun k => (([] : BStr), [k])) hgen) (fun r _ => hhead r)
     simpa using this
 
@@ -552,9 +553,9 @@ theorem rt_parseSearch (c : Choices) (cs : BStr) (keys : List SearchKey) (fuel :
     RT (parseSearch fuel) (printSearchArgs c cs keys) (.search cs keys) (nextIs .cr) := by
   obtain ⟨hne, hkeys, hlen, hcs⟩ := h
   have hloop : ∀ (cc : Choices) (l : List SearchKey), (∀ k ∈ l, KeyFit fuel k) → l.length < fuel →
-      RT (sepLoop .sp (parseSearchKey fuel fuel) fuel) (printSepTail 32 printKey cc l) l (nextIs .cr) :=
-    fun cc l hl hll => rt_sepLoop .sp 32 rfl (parseSearchKey fuel fuel) printKey keyFollow (nextIs .cr) l
-      (fun c' x hx => keyRT x c' fuel fuel hf (hl x hx).1 (hl x hx).2)
+      RT (sepLoop .sp (parseSearchKey searchBudget fuel) fuel) (printSepTail 32 printKey cc l) l (nextIs .cr) :=
+    fun cc l hl hll => rt_sepLoop .sp 32 rfl (parseSearchKey searchBudget fuel) printKey keyFollow (nextIs .cr) l
+      (fun c' x hx => keyRT x c' searchBudget fuel hf (hl x hx).1 (hl x hx).2)
       (fun r hr => by rw [hr]; decide) (fun r hr => fetchFollow_cr hr) (fun r => fetchFollow_sp r) fuel hll cc
   unfold parseSearch printSearchArgs
   split
